@@ -99,6 +99,12 @@ CLAIMED = {
              "Nothing is claimed about which candidates are offered (complete_arg and below are opaque) or about the shell adapters.",
         note="One loop body as a MIR fragment; callees other than the four helpers are opaque pure values; counters bounded by 2^48; candidates are realised by /verif/native/c18 through the public API.",
         ref="2 C18", technique="own MIR->SMT translation of a loop body (bit-vectors), z3 + cvc5, native replay"),
+    "C19": dict(
+        text="PARTIAL (thin). MIR->SMT (z3 + cvc5) on clap_mangen: each of the 8 hidden-item filter closures (synopsis, options, subcommands, possible values, per-subcommand pages, has-arguments / has-subcommands "
+             "predicates) equals `!item.is_hide_set()`, and Man::render emits its sections once each in the fixed order with OPTIONS / SUBCOMMANDS / VERSION present iff their guard predicate holds. "
+             "That rendering never panics, determinism, and that author-supplied text cannot start a roff request (escaping is in the third-party roff crate) are NOT decided.",
+        note="The section renderers and iterator adaptors are opaque; that the filters are applied to every item is trusted. Realised natively by /verif/native/c19 (32 hide/version/author combinations rendered).",
+        ref="2 C19", technique="own MIR->SMT translation: closure equivalence and call order on paths, z3 + cvc5, native replay"),
     "C20": dict(
         text="PARTIAL. (Kani) width accounting (display_width vs an ANSI-skip reference) and word splitting (find_words_ascii_space: consecutive non-empty pieces, cuts only at space->non-space) "
              "for EVERY ASCII string up to the length bound. (MIR->SMT) the loop BODY of LineWrapper::wrap equals the reference step from an arbitrary state (running width restarts from the re-emitted "
@@ -111,7 +117,6 @@ NOT_APPLICABLE = {
     "C15": "proc-macro translation running inside rustc plus generated code over a built Command: neither reachable by Kani nor a loop-free scalar kernel for the MIR->SMT engine",
     "C16": "every generator starts with cmd.build(); 'accepted by bash' is a statement about an external interpreter",
     "C17": "escapers are chains of String::replace: one symbolic char through fish's two replaces exceeded 10 GB/10 min; SMT string theory gave unknown; call sites need a built command",
-    "C19": "Man::render walks a built command; text escaping lives in the third-party roff crate",
 }
 
 PENDING = {}  # filled below when a check is not built yet
@@ -147,7 +152,7 @@ def main():
         "engines": [
             {"name": "kani", "path": "/verif/runner/kani.py", "serves_properties": sorted(p for p in CLAIMED if p != "C12"),
              "kind_free_text": "Kani 0.68/CBMC 6.11 harnesses (kani/lex external crate; harness/*.rs included into clap_builder under cfg clap_verif); counterexamples replayed natively via concrete playback"},
-            {"name": "mirsmt", "path": "/verif/runner/mir_check.py", "serves_properties": ["C01", "C02", "C03", "C04", "C05", "C06", "C09", "C10", "C11", "C12", "C18", "C20"],
+            {"name": "mirsmt", "path": "/verif/runner/mir_check.py", "serves_properties": ["C01", "C02", "C03", "C04", "C05", "C06", "C09", "C10", "C11", "C12", "C18", "C19", "C20"],
              "kind_free_text": "MIR (cargo +nightly rustc -Zunpretty=mir, overflow checks on) of loop-free scalar functions -> SMT-LIB2 bit-vector queries (mirsmt/*.py), decided by z3 and cvc5; candidates realised by a native #[test] in the harness module"},
         ],
         "checks": checks,
